@@ -269,6 +269,8 @@ def r3_port_kinds(ctx, nf) -> None:
         if c is dfo or dfo not in c.mro:
             continue
         for meth in ("port_kind", "port_type"):
+            if meth == "port_kind" and cname in KIND_ARMS:
+                continue        # (a class with arms of its own: whichever definition answers is judged against its arms below)
             definer = next((k for k in c.mro if hasattr(k, "methods") and meth in k.methods), None)
             ok = definer is not None and (definer is c or dfo in definer.mro)
             ctx.check(ok, "C06.R3", f"hugr.ops.{cname}.{meth}: answered by a dataflow definition", c.module.path, c.node.lineno,
